@@ -25,9 +25,13 @@ pub enum Ty {
     Enum(bool),
     /// a type name that is not declared in the language
     Undeclared(String),
+    /// an object type (texture, sampler, raw buffer) as a member: no layout
+    Object(String),
     Arr(Box<Ty>, u64),
     Struct(Vec<Ty>),
 }
+
+const OBJECTS: &[&str] = &["Texture2D", "SamplerState", "ByteAddressBuffer", "RWTexture3D"];
 
 const USES: &[&str] = &[
     "sb", "rwsb", "bload", "rwbload", "rwbstore", "baload", "rwbaload", "rwbastore",
@@ -42,6 +46,7 @@ pub fn show(t: &Ty) -> String {
         Ty::Vec(c, n) => format!("{}{}", c, n),
         Ty::Mat(c, r, k, m) => format!("{}{}x{}{}", c, r, k, if *m == '-' { String::new() } else { m.to_string() }),
         Ty::Undeclared(n) => format!("?{}", n),
+        Ty::Object(n) => format!("@{}", n),
         Ty::Enum(false) => "ei".into(),
         Ty::Enum(true) => "eu".into(),
         Ty::Arr(t, n) => format!("[{} {}]", n, show(t)),
@@ -94,6 +99,7 @@ fn parse_ty(toks: &[String], i: &mut usize) -> Option<Ty> {
         }
         "ei" => Some(Ty::Enum(false)),
         "eu" => Some(Ty::Enum(true)),
+        w if w.starts_with('@') && OBJECTS.contains(&&w[1..]) => Some(Ty::Object(w[1..].to_string())),
         w if w.starts_with('?') && w.len() > 1 && w[1..].chars().all(|c| c.is_ascii_alphanumeric() || c == '_') => {
             Some(Ty::Undeclared(w[1..].to_string()))
         }
@@ -171,6 +177,11 @@ impl Src {
     fn spell(&mut self, t: &Ty) -> (String, String, String) {
         match t {
             Ty::Undeclared(n) => (String::new(), n.clone(), String::new()),
+            Ty::Object(n) => (
+                String::new(),
+                if n == "RWTexture3D" { "RWTexture3D<float4>".into() } else { n.clone() },
+                String::new(),
+            ),
             Ty::Scalar(c) => {
                 let salt = self.next as u64 * 31 + 5;
                 self.next += 1;
@@ -502,7 +513,7 @@ fn scalar_bytes(rule: Rule, c: char) -> Option<u64> {
 fn reference(rule: Rule, t: &Ty, path: &str, top: bool) -> Option<(u64, u64, Vec<(String, u64)>, bool, bool)> {
     // (size, align, fields, self_tail_pad, inner_tail_pad)
     match t {
-        Ty::Undeclared(_) => None,
+        Ty::Undeclared(_) | Ty::Object(_) => None,
         Ty::Scalar(c) => {
             let b = scalar_bytes(rule, *c)?;
             Some((b, b, vec![], false, false))
@@ -1126,6 +1137,7 @@ fn note_shape(t: &Ty, hist: &mut Hist, top: bool) {
             hist.add(&format!("matrix:{}{}x{}{}", c, r, k, m));
         }
         Ty::Undeclared(n) => hist.add(&format!("leaf:undeclared:{}", n)),
+        Ty::Object(n) => hist.add(&format!("leaf:object:{}", n)),
         Ty::Enum(_) => hist.add("leaf:enum"),
         Ty::Arr(e, n) => {
             hist.add(&format!("array-len:{}", n));
@@ -1374,7 +1386,9 @@ fn all_sites() -> Vec<(String, String)> {
 
 fn wide_leaf(rng: &mut Rng) -> Ty {
     match rng.below(24) {
-        0 => Ty::Enum(rng.chance(1, 3)),
+        0 => {
+            if rng.chance(1, 3) { Ty::Object(rng.pick(OBJECTS).to_string()) } else { Ty::Enum(rng.chance(1, 3)) }
+        }
         1..=8 => Ty::Scalar(*rng.pick(WIDE_SCALARS)),
         9..=18 => Ty::Vec(*rng.pick(WIDE_SCALARS), rng.range(1, 4) as u32),
         _ => Ty::Mat(*rng.pick(WIDE_SCALARS), rng.range(1, 4) as u32, rng.range(1, 4) as u32, *rng.pick(MAJORS)),
@@ -1421,6 +1435,23 @@ fn deep_chain(rng: &mut Rng, depth: u32) -> Ty {
         t = Ty::Struct(ms);
     }
     t
+}
+
+/// a random structure whose two reference layouts agree
+fn agreeing_struct(rng: &mut Rng) -> Ty {
+    for _ in 0..40 {
+        let t = match rng.below(4) {
+            0 => random_struct(rng, 2, 4),
+            1 => wide_struct(rng, 2, 4, 10),
+            _ => random_tight_struct(rng),
+        };
+        if !contains_empty_struct(&t) && agrees(&t) == Some(true) {
+            return t;
+        }
+    }
+    // no vectors: the two rule sets coincide
+    let n = rng.range(1, 5);
+    Ty::Struct((0..n).map(|_| Ty::Scalar(*rng.pick(SCALARS))).collect())
 }
 
 fn prog_streams(args: &Args, rng: &mut Rng, out: &mut Out, hist: &mut Hist) {
@@ -1488,6 +1519,9 @@ fn prog_streams(args: &Args, rng: &mut Rng, out: &mut Out, hist: &mut Hist) {
     for u in UNDECLARED {
         wide.push(Ty::Undeclared(u.to_string()));
     }
+    for o in OBJECTS {
+        wide.push(Ty::Object(o.to_string()));
+    }
     let sb = ("sb".to_string(), String::new());
     let ld = ("bload".to_string(), "m".to_string());
     let st = ("rwbastore".to_string(), "u".to_string());
@@ -1516,7 +1550,7 @@ fn prog_streams(args: &Args, rng: &mut Rng, out: &mut Out, hist: &mut Hist) {
             run_prog(&mk(targets[(j + q) % 3], q % 2 == 1, style, vec![shape], vec![(site, 0)]), out, hist);
         }
         // the leaf itself as the element type, where the language allows it
-        if !matches!(w, Ty::Struct(_)) {
+        if !matches!(w, Ty::Struct(_) | Ty::Object(_)) {
             run_prog(&mk("vk", false, 0, vec![w.clone()], vec![(&ld, 0)]), out, hist);
             if !matches!(w, Ty::Enum(_)) {
                 run_prog(&mk("msl", false, 0, vec![w.clone()], vec![(&sb, 0)]), out, hist);
@@ -1536,7 +1570,15 @@ fn prog_streams(args: &Args, rng: &mut Rng, out: &mut Out, hist: &mut Hist) {
     for _ in 0..n {
         let nt = rng.range(1, 3) as usize;
         let mut tys = Vec::new();
-        for _ in 0..nt {
+        // half of the programs: every structure agrees except (perhaps) one, so that a use site validation does not
+        // look at decides the verdict
+        let mostly_agreeing = rng.chance(1, 2);
+        let odd_one = if rng.chance(3, 4) { rng.below(nt as u64) as usize } else { usize::MAX };
+        for k in 0..nt {
+            if mostly_agreeing && k != odd_one {
+                tys.push(agreeing_struct(rng));
+                continue;
+            }
             tys.push(match rng.below(10) {
                 0..=2 => random_tight_struct(rng),
                 3..=5 => random_struct(rng, 2, 5),
